@@ -332,6 +332,14 @@ func c09Event(key string, s c09Snap, collID uint32) sgbucket.FeedEvent {
 func (e *c09Env) exec(key string, op c09Op, events []c09Snap) int {
 	switch op.K {
 	case "set":
+		// SDK upsert.  On a tombstone (or a missing document) this is an insert: rosmar's SetRaw leaves its internal
+		// tombstone flag set when it revives a tombstone (WriteCas with cas 0 clears it, as Couchbase Server does).
+		if s := e.snap(key); !s.exists || s.tomb {
+			if _, err := e.raw.WriteCas(e.ctx, key, 0, 0, c09Body(op.B), sgbucket.Raw); err != nil {
+				return 9
+			}
+			return 0
+		}
 		if err := e.raw.SetRaw(e.ctx, key, 0, nil, c09Body(op.B)); err != nil {
 			return 9
 		}
